@@ -1259,7 +1259,7 @@ func (c *MJMLComponent) Render(w io.StringWriter) error {
 		return err
 	}
 
-	if _, err := w.WriteString(`<title>` + title + `</title>`); err != nil {
+	if _, err := w.WriteString(`<title>` + parser.EscapeCharData(title) + `</title>`); err != nil {
 		return err
 	}
 	if _, err := w.WriteString(`<!--[if !mso]><!--><meta http-equiv="X-UA-Compatible" content="IE=edge"><!--<![endif]-->`); err != nil {
